@@ -1,1 +1,255 @@
-fn main(){println!("hi");}
+//! Conformance harness binding /verif/spec to the jaq implementation in /repo.
+//!
+//!   replay  <vectors.ndjson> <results.ndjson> [jobs]   specification -> implementation
+//!   worker                                             (internal) one vector per stdin line
+//!   record  <cases.ndjson>   <trace.ndjson>            implementation -> specification
+//!   text    <vectors.ndjson>                           print the jq text of each vector
+
+mod enc;
+mod run;
+
+use serde_json::{json, Value as J};
+use std::io::{BufRead, BufReader, Write};
+use std::process::{Command, Stdio};
+use std::sync::mpsc;
+use std::time::Duration;
+
+fn worker() {
+    let stdin = std::io::stdin();
+    let stdout = std::io::stdout();
+    std::panic::set_hook(Box::new(|_| {}));
+    for line in stdin.lock().lines() {
+        let line = line.unwrap();
+        if line.trim().is_empty() {
+            continue;
+        }
+        let vec: J = match serde_json::from_str(&line) {
+            Ok(v) => v,
+            Err(e) => {
+                let mut o = stdout.lock();
+                writeln!(o, "{}", json!({"ok": false, "why": format!("bad vector: {e}")})).unwrap();
+                o.flush().unwrap();
+                continue;
+            }
+        };
+        let res = std::panic::catch_unwind(|| match vec["mode"].as_str().unwrap_or("run") {
+            "record" => record_one(&vec),
+            _ => run::check_vector(&vec),
+        });
+        let res = match res {
+            Ok(r) => r,
+            Err(p) => {
+                let msg = p.downcast_ref::<String>().cloned().or_else(|| p.downcast_ref::<&str>().map(|s| s.to_string())).unwrap_or_default();
+                json!({"id": vec["id"], "ok": false, "panic": true, "why": format!("panic: {msg}"),
+                       "text": enc::to_text(&vec["prog"]).unwrap_or_default(), "vec": vec})
+            }
+        };
+        let mut o = stdout.lock();
+        writeln!(o, "{}", res).unwrap();
+        o.flush().unwrap();
+    }
+}
+
+/// Run lines through worker processes; a worker that dies (stack overflow, abort) or hangs is
+/// data: the vector it was working on is reported, the rest continues in a fresh worker.
+fn farm(lines: Vec<String>, jobs: usize, out: &mut dyn Write) -> (usize, usize) {
+    let exe = std::env::current_exe().unwrap();
+    let chunks: Vec<Vec<String>> = {
+        let mut c = vec![Vec::new(); jobs.max(1)];
+        for (i, l) in lines.into_iter().enumerate() {
+            c[i % jobs.max(1)].push(l);
+        }
+        c
+    };
+    let (tx, rx) = mpsc::channel::<String>();
+    let mut handles = Vec::new();
+    for chunk in chunks {
+        let tx = tx.clone();
+        let exe = exe.clone();
+        handles.push(std::thread::spawn(move || {
+            let mut idx = 0;
+            while idx < chunk.len() {
+                let mut child = Command::new(&exe).arg("worker").stdin(Stdio::piped()).stdout(Stdio::piped()).stderr(Stdio::null()).spawn().unwrap();
+                let mut cin = child.stdin.take().unwrap();
+                let cout = child.stdout.take().unwrap();
+                let (ltx, lrx) = mpsc::channel::<String>();
+                let reader = std::thread::spawn(move || {
+                    for l in BufReader::new(cout).lines() {
+                        match l {
+                            Ok(l) => {
+                                if ltx.send(l).is_err() {
+                                    break;
+                                }
+                            }
+                            Err(_) => break,
+                        }
+                    }
+                });
+                // feed one line at a time so that a crash is attributed to the right vector
+                let mut died = false;
+                while idx < chunk.len() {
+                    if writeln!(cin, "{}", chunk[idx]).and_then(|_| cin.flush()).is_err() {
+                        died = true;
+                    }
+                    let got = if died { Err(mpsc::RecvTimeoutError::Disconnected) } else { lrx.recv_timeout(Duration::from_secs(20)) };
+                    match got {
+                        Ok(l) => {
+                            tx.send(l).unwrap();
+                            idx += 1;
+                        }
+                        Err(e) => {
+                            let why = match e {
+                                mpsc::RecvTimeoutError::Timeout => "hang",
+                                mpsc::RecvTimeoutError::Disconnected => "crash",
+                            };
+                            let _ = child.kill();
+                            let status = child.wait().ok().map(|s| format!("{s}")).unwrap_or_default();
+                            let vec: J = serde_json::from_str(&chunk[idx]).unwrap_or(J::Null);
+                            let res = json!({"id": vec["id"], "ok": false, "crash": why, "why": format!("worker {why} ({status})"),
+                                             "text": enc::to_text(&vec["prog"]).unwrap_or_default(), "vec": vec});
+                            tx.send(res.to_string()).unwrap();
+                            idx += 1;
+                            died = true;
+                            break;
+                        }
+                    }
+                }
+                drop(cin);
+                if !died {
+                    let _ = child.wait();
+                }
+                let _ = reader.join();
+            }
+        }));
+    }
+    drop(tx);
+    let (mut n, mut bad) = (0, 0);
+    for l in rx {
+        n += 1;
+        if l.contains("\"ok\":false") {
+            bad += 1;
+        }
+        writeln!(out, "{l}").unwrap();
+    }
+    for h in handles {
+        let _ = h.join();
+    }
+    (n, bad)
+}
+
+/// implementation -> specification: parse the text with jaq, run it, write one trace line
+fn record_one(case: &J) -> J {
+    use jaq_core::load::{parse, Lexer, Parser};
+    let id = case["id"].clone();
+    let text = case["text"].as_str().unwrap_or("");
+    let skip = |why: String| json!({"id": id, "ok": true, "skipped": why, "text": text});
+    let tokens = match Lexer::new(text).lex() {
+        Ok(t) => t,
+        Err(_) => return skip("lex error".into()),
+    };
+    let term: parse::Term<&str> = match Parser::new(&tokens).parse(|p| p.term()) {
+        Ok(t) => t,
+        Err(_) => return skip("parse error".into()),
+    };
+    let prog = match enc::term_to_json(&term) {
+        Ok(p) => p,
+        Err(e) => return skip(format!("outside the encoding: {e}")),
+    };
+    let input = match case.get("input") {
+        Some(j) if !j.is_null() => match enc::json_to_val(j) {
+            Ok(v) => v,
+            Err(e) => return skip(e),
+        },
+        _ => jaq_json::Val::Null,
+    };
+    let filter = match run::compile(text, &[]) {
+        Ok(f) => f,
+        Err(e) => return skip(format!("does not compile: {e}")),
+    };
+    let cap = case["cap"].as_u64().unwrap_or(64) as usize;
+    let (items, ended, _counts) = run::run_items(&filter, Vec::new(), input.clone(), Vec::new(), cap);
+    let mut o = Vec::new();
+    let mut e = json!({"k": if ended { "ok" } else { "cap" }});
+    for it in &items {
+        match it {
+            run::Item::Out(v) => o.push(v.clone()),
+            run::Item::Err { v, user } => e = json!({"k": "err", "v": v, "user": user}),
+            run::Item::Halt(c) => e = json!({"k": "halt", "c": c}),
+            run::Item::Leak(s) => e = json!({"k": "leak", "s": s}),
+        }
+    }
+    let mut line = json!({"id": id, "ok": true, "text": text, "prog": prog, "input": enc::val_to_json(&input),
+                          "observed": {"o": o, "e": e}});
+    // the manual's own expectation, read with jaq's XJON reader
+    if let Some(rhs) = case.get("rhs").and_then(|r| r.as_str()) {
+        let vals: Result<Vec<_>, _> = jaq_json::read::parse_many(rhs.as_bytes()).collect();
+        if let Ok(vals) = vals {
+            // a decimal literal of the manual that is an exact small float is that float
+            let norm = |v: &jaq_json::Val| -> J {
+                fn go(j: J) -> J {
+                    match j["t"].as_str() {
+                        Some("dec") => {
+                            let s: String = j["ds"].as_array().unwrap().iter().map(|c| c.as_i64().unwrap() as u8 as char).collect();
+                            match s.parse::<f64>() {
+                                Ok(f) => enc::float_to_json(f),
+                                Err(_) => j,
+                            }
+                        }
+                        Some("arr") => json!({"t": "arr", "a": j["a"].as_array().unwrap().iter().cloned().map(go).collect::<Vec<_>>()}),
+                        Some("obj") => json!({"t": "obj", "uo": false, "o": j["o"].as_array().unwrap().iter().map(|kv| J::Array(vec![go(kv[0].clone()), go(kv[1].clone())])).collect::<Vec<_>>()}),
+                        _ => j,
+                    }
+                }
+                go(enc::val_to_json(v))
+            };
+            line["manual"] = J::Array(vals.iter().map(norm).collect());
+        }
+    }
+    line
+}
+
+fn read_lines(path: &str) -> Vec<String> {
+    let f = std::fs::File::open(path).unwrap_or_else(|e| {
+        eprintln!("cannot open {path}: {e}");
+        std::process::exit(2)
+    });
+    BufReader::new(f).lines().map(|l| l.unwrap()).filter(|l| !l.trim().is_empty()).collect()
+}
+
+fn main() {
+    let args: Vec<String> = std::env::args().collect();
+    let cmd = args.get(1).map(|s| s.as_str()).unwrap_or("");
+    match cmd {
+        "worker" => worker(),
+        "replay" | "record" => {
+            let lines = read_lines(&args[2]);
+            let lines = if cmd == "record" {
+                lines
+                    .into_iter()
+                    .map(|l| {
+                        let mut j: J = serde_json::from_str(&l).unwrap();
+                        j["mode"] = "record".into();
+                        j.to_string()
+                    })
+                    .collect()
+            } else {
+                lines
+            };
+            let jobs = args.get(4).and_then(|s| s.parse().ok()).unwrap_or(8);
+            let mut out = std::io::BufWriter::new(std::fs::File::create(&args[3]).unwrap());
+            let (n, bad) = farm(lines, jobs, &mut out);
+            out.flush().unwrap();
+            println!("{{\"processed\": {n}, \"bad\": {bad}}}");
+        }
+        "text" => {
+            for l in read_lines(&args[2]) {
+                let j: J = serde_json::from_str(&l).unwrap();
+                println!("{}", enc::to_text(&j["prog"]).unwrap_or_else(|e| format!("<{e}>")));
+            }
+        }
+        _ => {
+            eprintln!("usage: harness replay|record|text ...");
+            std::process::exit(2);
+        }
+    }
+}
